@@ -219,12 +219,26 @@ def parse_datetime(I, s, fmt):
     off = f['z']
     if not in_range(I, off, -86399, 86399):
         raise ParseErr('OUT_OF_RANGE')
+    return instant_of(y, m, d, f['H'], f['M'], f['S'], off)
+
+
+def instant_of(y, m, d, H, M, S, off):
+    """(seconds since the epoch, frac) of a civil date-time at a UTC offset.  A leap second hh:mm:60 is the instant strictly
+    between :59 and the next :00 (chrono keeps it as :59 + 1e9 ns and does not normalise): (:59, frac=True)."""
     days = days_from_civil(y, m, d)
-    tod = f['H'] * 3600 + f['M'] * 60 + f['S']
+    if is_sym(S):
+        frac = z3.simplify(S == 60)
+        if z3.is_false(frac):
+            frac = False
+        sec = S if frac is False else z3.If(frac, z3.BitVecVal(59, 32), S)
+    else:
+        frac = S == 60
+        sec = min(S, 59)
+    tod = H * 3600 + M * 60 + sec
     if is_sym(days) or is_sym(tod) or is_sym(off):
-        w = lambda x: z3.SignExt(32, x) if is_sym(x) else z3.BitVecVal(x, 64)
-        return z3.simplify(w(days) * 86400 + w(tod) - w(off))
-    return days * 86400 + tod - off
+        w = lambda x: z3.SignExt(32, x) if is_sym(x) else z3.SignExt(32, z3.BitVecVal(x, 32))
+        return z3.simplify(w(days) * 86400 + w(tod) - w(off)), frac
+    return days * 86400 + tod - off, frac
 
 
 @model('chrono::DateTime::parse_from_str')
@@ -234,11 +248,15 @@ def _(I, a):
     if any(is_sym(b) for b in fb):
         raise Unsupported('symbolic format string')
     try:
-        secs = parse_datetime(I, s, bytes(fb).decode())
+        secs, frac = parse_datetime(I, s, bytes(fb).decode())
     except ParseErr as e:
         return err(Opaque('chrono_parse_error', what=str(e)))
-    return ok(Opaque('instant', secs=secs))
+    if is_sym(frac) and z3.is_true(frac):
+        frac = True
+    elif is_sym(frac) and z3.is_false(frac):
+        frac = False
+    return ok(Opaque('instant', secs=secs, frac=frac))
 
 
 def mk_instant(secs):
-    return Opaque('instant', secs=secs)
+    return Opaque('instant', secs=secs, frac=False)
